@@ -70,11 +70,21 @@ def run(ctx):
             _, cid, tid, n, cls, hdr = f
             evals += 1
             n = int(n)
+            tname = names.get(int(tid), tid)
             want = "ok" if n < (1 << 24) else "err"
-            if cls != want:
-                C.violation(ctx, "bytes-length:%d" % n,
-                            "byte string of %d bytes: expected %s, implementation: %s (header %s)" % (n, want, cls, hdr),
-                            {"kind": "B", "length": n, "expected": want, "got": cls, "header": hdr})
+            whdr = "fe" + n.to_bytes(3, "little").hex() if want == "ok" else "-"
+            if cls != want or (want == "ok" and hdr != whdr):
+                C.violation(ctx, "bytes-length:%s:%d" % (tname, n),
+                            "%s with a string/bytes field of %d bytes: expected %s with length header %s, implementation: %s (header %s)" % (tname, n, want, whdr, cls, hdr),
+                            {"kind": "B", "type": tname, "length": n, "expected": want, "expected_header": whdr, "got": cls, "header": hdr})
+        elif f[0] == "A":
+            _, cid, what, was, now, after = f
+            evals += 1
+            C.violation(ctx, "marshal-result-overwritten",
+                        "bytes returned by tl.Marshal(%s) changed after a later tl.Marshal(%s): were %s, are %s"
+                        % (T.short(what, 80), T.short(after, 80), T.short(was, 80), T.short(now, 80)),
+                        {"kind": "A", "first_value": what, "later_value": after, "bytes_returned": was, "bytes_now": now,
+                         "oracle": "a returned encoding is the caller's: it must not change when the library is used again"})
     if not samples:
         samples.append({"note": "no sample selected"})
     cov = C.proof_coverage(
@@ -84,9 +94,14 @@ def run(ctx):
          "rule": "per struct type of the universe (registered constructors, hand-written wrappers, pseudo objects): all-absent, all-present, every presence "
                  "pattern of every shared flag group, random values (boundary string lengths 0..8/252..257/65535..65537, int/long/double extremes, every enum member, "
                  "128/256-bit integers with leading zero bytes, nil/empty/1/2/17-element vectors, nested interface values); each is marshalled twice, decoded by name and by id, "
-                 "re-marshalled, and compared with the extracted Coq enc/dec; plus the 2^24-1 / 2^24 / 2^24+1 byte strings. "
+                 "re-marshalled, and compared with the extracted Coq enc/dec; plus the 2^24-1 / 2^24 / 2^24+1 byte strings and strings (length header compared); every returned encoding is "
+                 "kept (the slice as returned) and compared with its snapshot after each of the next 8 Marshal calls. "
                  "non-trivial = distinct values whose encoding succeeded",
          "samples": samples, "input_distribution": prep["stats"], "disagreements_checked": disagreements,
+         "values_by_theorem_domain": {"inside_wt (round-trip theorems apply)": prep.get("domain", {}).get("wt", 0),
+                                      "outside_wt (compared by result class and bytes only)": prep.get("domain", {}).get("illtyped", 0),
+                                      "msg_container (hand-written codec, correspondence only)": prep.get("domain", {}).get("c", 0),
+                                      "not representable in the model (skipped)": prep.get("domain", {}).get("unsupported", 0)},
          "types_in_universe": len(prep["structs"]), "registered_ids": len(prep["regl"]), "types_found_by_source_scan": prep["nscanned"],
          "projection": "result class ok/err/panic, produced bytes, abstracted decoded value; error texts not compared"})
     return C.finish(ctx, "proof", cov, [
